@@ -186,8 +186,17 @@ func Pace(name string) {
 	}
 	due := start.Add(time.Duration(k+1) * time.Millisecond)
 	if mv != nil && mv.at >= 0 {
-		// the counterexample carries virtual time: follow it (plus a step-order epsilon)
-		due = start.Add(time.Duration(mv.at) + time.Duration(k+1)*time.Microsecond)
+		// the counterexample carries virtual time: follow it, plus a step-order
+		// epsilon that varies between attempts (none / nanoseconds / microseconds:
+		// which one reproduces the trace depends on the time scale of the stage)
+		eps := time.Duration(k+1) * time.Microsecond
+		switch paceAttempt % 3 {
+		case 1:
+			eps = 0
+		case 2:
+			eps = time.Duration(k + 1)
+		}
+		due = start.Add(time.Duration(mv.at) + eps)
 	}
 	if d := time.Until(due); d > 0 {
 		time.Sleep(d)
@@ -266,8 +275,11 @@ func BMCTest(t *testing.T, h func()) (fails []string, applicable bool, panicked 
 	return
 }
 
+var paceAttempt int
+
 func runBMCOnce(h func(), attempt int) (fails []string, applicable bool, panicked any) {
 	Reset()
+	paceAttempt = attempt
 	nmu.Lock()
 	nprocs, nfinals, ninvars = nil, nil, nil
 	nmu.Unlock()
